@@ -1006,7 +1006,7 @@ class _Spline(_Algorithm):
             allow_lower=False, reverse_diags=True
         )
         alpha_array = _check_optional_array(
-            self._size, alpha, check_finite=self._check_finite, name='alpha'
+            self._size, alpha, dtype=float, check_finite=self._check_finite, name='alpha'
         )
         if self._sort_order is not None and alpha is not None:
             alpha_array = alpha_array[self._sort_order]
